@@ -473,6 +473,14 @@ func run(r *hk.Run) {
 			fail(r, "C01", site, "alloc", hk.Hex(in), fmt.Sprintf("allocated %d octets for %d input octets (bound %d)", res.alloc, len(in), int(bound)))
 		}
 		if res.dur > 2*time.Second {
+			// wall time on a loaded machine: only a reproduced excess counts
+			for k := 0; k < 2 && res.dur > 2*time.Second; k++ {
+				if again, _ := decodeMsg(m.msgInfo, in); again.dur < res.dur {
+					res.dur = again.dur
+				}
+			}
+		}
+		if res.dur > 2*time.Second {
 			fail(r, "C01", site, "slow", hk.Hex(in), fmt.Sprintf("took %v", res.dur))
 		}
 		// C10: input not modified
